@@ -120,7 +120,11 @@ func newCNIHarness(conf daemonConf) (*cniHarness, error) {
 	h.kube = kubefake.NewSimpleClientset()
 	g.SetClient(h.kube)
 	h.kern = nfsim.New()
-	g.VerifSetPortMappingHandler(portmapping.NewVerif(utiliptables.New(h.kern.Exec(), utiliptables.ProtocolIpv4), ""))
+	pmh := portmapping.NewVerif(utiliptables.New(h.kern.Exec(), utiliptables.ProtocolIpv4), "")
+	if err := pmh.EnsureBasicRule(); err != nil { // the daemon does this on start
+		return nil, err
+	}
+	g.VerifSetPortMappingHandler(pmh)
 	h.g = g
 	c := restful.NewContainer()
 	c.DoNotRecover(true)
